@@ -3,6 +3,7 @@ import Driver.Lru
 import Driver.Registry
 import Driver.Bind
 import Driver.Deps
+import Driver.Finder
 open Lean
 
 def dispatch (j : Json) : Except String Json := do
@@ -14,6 +15,7 @@ def dispatch (j : Json) : Except String Json := do
   | "bind" => Driver.BindD.handle j
   | "deps" => Driver.DepsD.handle j
   | "middleware" => Driver.DepsD.handleMw j
+  | "finder" => Driver.FinderD.handle j
   | "ping" => pure (Json.mkObj [("pong", Json.bool true)])
   | _ => throw s!"unknown op {op}"
 
